@@ -1,6 +1,7 @@
 import MxModel.Props.C01
 import MxModel.Props.C06
 import MxModel.Proofs.ExecCertRunOps
+import MxModel.Proofs.ExecInputsRun
 import MxModel.Proofs.ExecResolveSM
 import MxModel.Proofs.ExecCertExamples
 /-!
@@ -37,7 +38,7 @@ of a cells that does not exist fails in the caller (`Env.alive`, `evalNode`, `ca
 a failure into a value: known finding C02-caught-failure-untracked, `full_statement_fails_catch`
 below), `Scoped env` (static scoping: a by-name read is of a reference of the formula's own
 space, which is how Python resolves globals), and – only for the corollary about what later
-evaluations *return*, inherited from C01 – `LimitNeverCaught` (`hit = false`).
+evaluations *return*, inherited from C01 – `LimitNotCaughtInThisCall` (C01).
 
 What is **not** a Lean theorem: the structural part of the property (which spaces a structural
 edit notifies, derived members) – decided by the implementation-only oracle (live model against
@@ -142,9 +143,9 @@ definitions – the value a model that only saw the edits returns (partial:
 `LimitNeverCaught`, as in C01). -/
 theorem later_answers_depend_only_on_current_definitions_partial (env' : Env)
     (inp' : Node → Option Val) (s' : St) (n : Node) (v : Val)
-    (hg : Good env' inp' s') (h0 : s'.hit = false) (hend : (evalTop env' n s').2.hit = false)
+    (hg : Good env' inp' s') (hlim : LimitNotCaughtInThisCall env' n s')
     (hv : (evalTop env' n s').1 = .ok v) : Den env' inp' n (.ok v) :=
-  (C01.eval_value_is_denotation_partial env' inp' n s' hg h0 hend).1 v hv
+  (C01.eval_value_is_denotation_partial env' inp' n s' hg hlim).1 v hv
 
 /-! Non-vacuity: in the program of C08, `c0(7)` is alone in its call-closed set and reads only
 reference 0; changing the formula of `c2` leaves its denotation untouched. -/
@@ -361,15 +362,66 @@ theorem no_stale_value_reachable (lt : Node → Node → Prop) (ho : StrictOrder
   (reachable_ci lt ho env0 hw0 ops hadm).1.good
 
 /-- **T5 – later answers equal those of a model that saw only the edits** (partial:
-`LimitNeverCaught` for the two evaluations, as in C01).  `sF` is any state of the edited model in
-which nothing stale can be held – e.g. the model to which only the edits were applied, which
-holds the inputs and nothing else (`Good` is then immediate). -/
+`LimitNotCaughtInThisCall` for the two evaluations, as in C01).  `sF` is any state of the edited model
+in which nothing stale can be held.  (Kept for states `sF` given from outside; for THE edits-only
+model see `live_answer_equals_edits_only_answer`, which has no hypothesis about `sF`.) -/
 theorem later_answers_equal_fresh_model_partial (env' : Env) (lt : Node → Node → Prop) (s' sF : St)
     (h : CI env' lt s') (hF : Good env' (inpOf s') sF) (n : Node) (v w : Val)
-    (h0 : s'.hit = false) (h0F : sF.hit = false)
-    (hend : (evalTop env' n s').2.hit = false) (hendF : (evalTop env' n sF).2.hit = false)
+    (hend : LimitNotCaughtInThisCall env' n s') (hendF : LimitNotCaughtInThisCall env' n sF)
     (hv : (evalTop env' n s').1 = .ok v) (hw : (evalTop env' n sF).1 = .ok w) : v = w :=
-  C01.order_independent env' (inpOf s') n s' sF h.good hF h0 h0F hend hendF v w hv hw
+  C01.order_independent env' (inpOf s') n s' sF h.good hF hend hendF v w hv hw
+
+/-- **The model to which only the edits were applied has the same definitions and the same inputs
+as the live model** – `noEvals ops` is the history with every evaluation removed – and holds
+certificates for them. -/
+theorem edits_only_same_definitions_and_inputs (lt : Node → Node → Prop) (ho : StrictOrder lt) (env0 : Env)
+    (hw0 : WF env0 lt) (ops : List Op) (hadm : Admissible lt (env0, {}) ops) :
+    (run (env0, {}) (noEvals ops)).1 = (run (env0, {}) ops).1 ∧
+    inpOf (run (env0, {}) (noEvals ops)).2 = inpOf (run (env0, {}) ops).2 ∧
+    Good (run (env0, {}) ops).1 (inpOf (run (env0, {}) ops).2) (run (env0, {}) (noEvals ops)).2 := by
+  obtain ⟨h1, h2, h3, _, _⟩ := run_noEvals lt ho env0 hw0 ops hadm
+  exact ⟨h1, h2, h2 ▸ h3.good⟩
+
+/-- **The headline: whatever was evaluated in between, the value a later evaluation returns equals
+the value returned by a model to which only the edits were applied.**  `ops` is ANY history of the
+thirteen-operation language from the empty model (admissible: the edits stay in the regime `WF`);
+the live model runs all of it, the other model runs `noEvals ops`; then both are asked for `n`.
+If both return values, the values are equal.  No hypothesis about either run – in particular none
+about the depth limit, in these two calls or in any evaluation of the history. -/
+theorem live_answer_equals_edits_only_answer (lt : Node → Node → Prop) (ho : StrictOrder lt) (env0 : Env)
+    (hw0 : WF env0 lt) (ops : List Op) (hadm : Admissible lt (env0, {}) ops) (n : Node) (v w : Val)
+    (hv : (evalTop (run (env0, {}) ops).1 n (run (env0, {}) ops).2).1 = .ok v)
+    (hw : (evalTop (run (env0, {}) (noEvals ops)).1 n (run (env0, {}) (noEvals ops)).2).1 = .ok w) :
+    v = w := by
+  obtain ⟨h1, h2, h3, h4, hwf⟩ := run_noEvals lt ho env0 hw0 ops hadm
+  rw [h1] at hw
+  have a := (C01.eval_value_is_denotation_nocatch_partial _ _ hwf.noCatch n _ h4.good).1 v hv
+  have b := (C01.eval_value_is_denotation_nocatch_partial _ _ hwf.noCatch n _ h3.good).1 w hw
+  rw [h2] at b
+  have := Den_det _ _ n _ _ a b
+  cases this; rfl
+
+/-- …and when neither of the two calls hits the limit and the live one fails, the edits-only model
+fails with the same original error. -/
+theorem live_error_equals_edits_only_error_partial (lt : Node → Node → Prop) (ho : StrictOrder lt)
+    (env0 : Env) (hw0 : WF env0 lt) (ops : List Op) (hadm : Admissible lt (env0, {}) ops) (n : Node)
+    (e : Err) (tb : List Node)
+    (hl1 : LimitNotCaughtInThisCall (run (env0, {}) ops).1 n (run (env0, {}) ops).2)
+    (hl2 : LimitNotCaughtInThisCall (run (env0, {}) ops).1 n (run (env0, {}) (noEvals ops)).2)
+    (hv : (evalTop (run (env0, {}) ops).1 n (run (env0, {}) ops).2).1 = .formulaError e tb) :
+    ∃ tb', (evalTop (run (env0, {}) (noEvals ops)).1 n (run (env0, {}) (noEvals ops)).2).1 =
+      .formulaError e tb' := by
+  obtain ⟨h1, h2, h3, h4, hwf⟩ := run_noEvals lt ho env0 hw0 ops hadm
+  rw [h1]
+  have a := (C01.eval_value_is_denotation_partial _ _ n _ h4.good hl1).2.1 e tb hv
+  have hg3 : Good (run (env0, {}) ops).1 (inpOf (run (env0, {}) ops).2) (run (env0, {}) (noEvals ops)).2 :=
+    h2 ▸ h3.good
+  have hb := C01.eval_value_is_denotation_partial _ _ n _ hg3 hl2
+  cases hres : (evalTop (run (env0, {}) ops).1 n (run (env0, {}) (noEvals ops)).2).1 with
+  | ok w => have := Den_det _ _ n _ _ a (hb.1 w hres); cases this
+  | formulaError e' tb' =>
+    have := Den_det _ _ n _ _ a (hb.2.1 e' tb' hres)
+    cases this; exact ⟨tb', rfl⟩
 
 /-- **a syntactic class in the regime** (`tableEnv`, `Proofs/ExecCertRunOps.lean`): bodies without a
 handler that returns a value (`noCatch`; contains the `try`-free bodies, `noCatch_of_noTry`), cells
@@ -385,8 +437,8 @@ theorem tableEnv_wf (cells : CellId → Option Expr) (ar : CellId → Option Nat
 /-! Non-vacuity.  Space 0 holds `c0(x) = x + r0` (reference `r0` of space 0, by name), the
 uncached `c1(x) = c0(x) + r1` (`r1` lives in space 1: attribute path) and `c3() = c2(1) + r0`
 (by attribute path `_space.r0`); space 1 holds `c2(x) = c1(x) * r1` (`r1` by name).  A history
-with evaluations, a change of `r1`, a change of `r0`, a deletion, an assignment and a formula edit
-is admissible; the invariant holds at its end, and the values really changed.  (The example
+with evaluations, a change of `r1`, a change of `r0`, a deletion of `r1`, an assignment and its
+re-creation is admissible (flag and formula edits: `zOps` below); the invariant holds at its end, and the values really changed.  (The example
 programs are defined in `Proofs/ExecCertExamples.lean`.) -/
 example : CI (run (xEnv, {}) xOps).1 idLt (run (xEnv, {}) xOps).2 :=
   (reachable_ci idLt idLt_strict xEnv xEnv_wf xOps
@@ -409,6 +461,29 @@ example : ((run (xEnv, {}) (xOps.take 3)).2.data.map (·.1)) = [(0, [.int 5]), (
     (run (xEnv, {}) (xOps.take 2)).2.rg = [(1, (2, [.int 1])), (0, (3, []))] ∧
     (run (xEnv, {}) (xOps.take 3)).2.rg = [] := by
   decide
+
+/-! Non-vacuity with a FLAG edit and a FORMULA edit (`zOps`, `Proofs/ExecCertExamples.lean`): `c3()` is 36;
+the uncached `c1` is switched to cached – `c3()` is recomputed, 36 again, now with an element node for
+`c1(1)`; `c3` gets the formula `c0(1)` – 11; `r0 := 7` – 8.  The history is admissible, the invariant
+holds at its end, and the model to which only the three edits were applied answers 8 as well
+(`live_answer_equals_edits_only_answer` – here both sides computed). -/
+example : CI (run (xEnv, {}) zOps).1 idLt (run (xEnv, {}) zOps).2 :=
+  (reachable_ci idLt idLt_strict xEnv xEnv_wf zOps zOps_admissible).1
+
+example : (evalTop xEnv (3, []) {}).1 = .ok (.int 36) ∧
+    (evalTop (run (xEnv, {}) (zOps.take 2)).1 (3, []) (run (xEnv, {}) (zOps.take 2)).2).1 = .ok (.int 36) ∧
+    (run (xEnv, {}) (zOps.take 3)).2.gn.contains (.elem (1, [.int 1])) = true ∧
+    (evalTop (run (xEnv, {}) (zOps.take 4)).1 (3, []) (run (xEnv, {}) (zOps.take 4)).2).1 = .ok (.int 11) ∧
+    (evalTop (run (xEnv, {}) zOps).1 (3, []) (run (xEnv, {}) zOps).2).1 = .ok (.int 8) ∧
+    (evalTop (run (xEnv, {}) (noEvals zOps)).1 (3, []) (run (xEnv, {}) (noEvals zOps)).2).1 = .ok (.int 8) := by
+  decide
+
+example : noEvals zOps = [.setCached 1 true, .setFormula 3 zF, .setRef 0 (.int 7)] := rfl
+
+example (v w : Val) (hv : (evalTop (run (xEnv, {}) zOps).1 (2, [.int 1]) (run (xEnv, {}) zOps).2).1 = .ok v)
+    (hw : (evalTop (run (xEnv, {}) (noEvals zOps)).1 (2, [.int 1]) (run (xEnv, {}) (noEvals zOps)).2).1 = .ok w) :
+    v = w :=
+  live_answer_equals_edits_only_answer idLt idLt_strict xEnv xEnv_wf zOps zOps_admissible (2, [.int 1]) v w hv hw
 
 /-! Non-vacuity for cells deleted and created.  In the same program: `c3()` and `c0(5)` are
 evaluated, `c0(9)` is assigned; `c0` is deleted - nothing is held any more (the elements of `c0`,
@@ -444,7 +519,8 @@ theorem full_statement_fails_catch :
       have : (evalTop cEnv (1, []) {}).2.inputs = [] := by decide
       simp [inpOf, this]
     rw [hinp]
-    exact (C01.eval_value_is_denotation_partial cEnv (fun _ => none) (1, []) {} hg0 rfl (by decide)).2.2
+    exact (C01.eval_value_is_denotation_partial cEnv (fun _ => none) (1, []) {} hg0
+      (LimitNotCaughtInThisCall.of_flag rfl (by decide))).2.2
   have := (h cEnv _ 0 (.int 5) hgood).sound (1, []) (.int (-1)) rfl (by decide)
   have hspec : Den (cEnv.withRef 0 (some (.int 5)))
       (inpOf ((evalTop cEnv (1, []) {}).2.setRef cEnv 0)) (1, []) (.ok (.int 5)) := by
@@ -476,7 +552,8 @@ theorem cell_create_fails_catch :
       have : (evalTop dEnv (1, []) {}).2.inputs = [] := by decide
       simp [inpOf, this]
     rw [hinp]
-    exact (C01.eval_value_is_denotation_partial dEnv (fun _ => none) (1, []) {} hg0 rfl (by decide)).2.2
+    exact (C01.eval_value_is_denotation_partial dEnv (fun _ => none) (1, []) {} hg0
+      (LimitNotCaughtInThisCall.of_flag rfl (by decide))).2.2
   have := (h dEnv _ 0 (fun _ => .ret (.int 5)) true false hgood rfl).sound (1, []) (.int (-1)) rfl (by decide)
   have hspec : Den (dEnv.withCell 0 (fun _ => .ret (.int 5)) true false)
       (inpOf ((evalTop dEnv (1, []) {}).2.newCell dEnv 0)) (1, []) (.ok (.int 5)) := by
